@@ -243,7 +243,7 @@ def reference_layout(api):
 
 
 @st.composite
-def layouts(draw, api):
+def layouts(draw, api, pin_docs=False):
     """Random layout: definitions split over 1-6 files per namespace, permuted definitions,
     permuted files, noise, continuation variants."""
     files = []
@@ -260,7 +260,13 @@ def layouts(draw, api):
         docs = ['doc', 'doc2'] if draw(st.booleans()) else ['doc2', 'doc']
         for i, b in enumerate(buckets):
             files.append({'ns': n['name'], 'items': b, 'doc': docs[i] if i < 2 else None})
-    files = draw(st.permutations(files))
+    files = list(draw(st.permutations(files)))
+    if pin_docs:
+        # namespace docs concatenate in file order (documented): keep the reference doc
+        seen = set()
+        for f in files:
+            f['doc'] = 'doc' if f['ns'] not in seen else None
+            seen.add(f['ns'])
     noise = draw(st.lists(st.integers(0, 11), min_size=1, max_size=12))
     cont = draw(st.integers(0, 15))
     return {'files': list(files), 'noise': noise, 'cont': cont,
